@@ -442,10 +442,36 @@ func TestMutationChains(t *testing.T) {
 		var muts []arpc.VerifMutation
 		cur := a
 		var snaps []Snap
+		neutral := 0
 		for i := 0; i < k; i++ {
-			b := Snap{Time: append(am.Time{}, cur.Time...), Q: cur.Q + uint64(rapid.IntRange(0, 2).Draw(t, "dq")), M: cur.M}
-			for j := range b.Time {
-				b.Time[j] += uint64(rapid.IntRange(0, 2).Draw(t, "dt"))
+			b := Snap{Time: append(am.Time{}, cur.Time...), Q: cur.Q, M: cur.M}
+			switch kind := rapid.IntRange(0, 7).Draw(t, "linkKind"); {
+			case kind < 5:
+				b.Q += uint64(rapid.IntRange(0, 2).Draw(t, "dq"))
+				for j := range b.Time {
+					b.Time[j] += uint64(rapid.IntRange(0, 2).Draw(t, "dt"))
+				}
+			case kind < 7:
+				// representable deltas around the field widths and the checksum modulus
+				b.Q += rapid.SampledFrom([]uint64{0, 1, 2, 255, 256, 257}).Draw(t, "dqBig")
+				for j := range b.Time {
+					if rapid.Bool().Draw(t, "chg") {
+						b.Time[j] += rapid.SampledFrom([]uint64{1, 254, 255, 256, 257, 65535, 65536, 65537}).Draw(t, "dtBig")
+					}
+				}
+			default:
+				// a link that moves the clocks by a multiple of 256 in total: invisible to the 8-bit checksum
+				var tracked []int
+				for j := 0; j < n; j++ {
+					if cfg.Mask&(1<<uint(j)) != 0 {
+						tracked = append(tracked, j)
+					}
+				}
+				j := rapid.SampledFrom(tracked).Draw(t, "neutralIdx")
+				nk := rapid.SampledFrom([][2]uint64{{255, 1}, {256, 0}, {65536, 0}, {254, 2}, {512, 0}}).Draw(t, "neutral")
+				b.Time[j] += nk[0]
+				b.Q += nk[1]
+				neutral++
 			}
 			muts = append(muts, arpc.VerifMutation{MutType: am.MutationAdd, CalledIdxs: []int{0}, Data: *r.serverData(b)})
 			snaps = append(snaps, b)
@@ -466,6 +492,9 @@ func TestMutationChains(t *testing.T) {
 		}
 		st.Eval(1)
 		st.Class("mutation-chain")
+		if neutral > 0 {
+			st.Class("mutation-chain:with a checksum-neutral link")
+		}
 		st.NonTrivial(fmt.Sprint("chain", cfg, a, snaps))
 	})
 }
